@@ -75,3 +75,11 @@ def build_string_matcher(phrases):
     m = StringMatcher()
     m.init(list(phrases))
     return m
+
+
+def digit_char(v):
+    return str(v)
+
+
+def hex_char(v):
+    return '0123456789abcdef'[v]
